@@ -354,13 +354,8 @@ pub fn decomp_cases(ctx: &Ctx, out: &mut Vec<Case>) {
         }
         // assign_many_small and the typed bulk assignments
         for len in 0..=(if !ctx.thorough() { 5 } else { 9 }) {
-            let k = rng.gen_range(0..=8usize);
-            let inputs: Vec<F> = (0..len).map(|_| big_fe(&pick_below(&mut rng, &pow2(k)))).collect();
-            out.push(nd(case("ams", d.clone(), vec![op("ams", vec![N(len as u64), N(k as u64)])], inputs, 1)));
-            let inputs: Vec<F> = (0..len).map(|_| F::from(rng.gen_range(0..2u64))).collect();
-            out.push(nd(case("inbmany", d.clone(), vec![op("inbmany", vec![N(len as u64)])], inputs, 1)));
-            let inputs: Vec<F> = (0..len).map(|_| F::from(rng.gen_range(0..256u64))).collect();
-            out.push(nd(case("inymany", d.clone(), vec![op("inymany", vec![N(len as u64)])], inputs, 1)));
+            // (assign_many_small and the bit / byte batch assignments: `oracles::batch_oracle`, every
+            // batch length 0..=9 x 1..4 lookup columns, with the range oracle at every position)
             let inputs: Vec<F> = (0..len).map(|_| rand_fe(&mut rng)).collect();
             out.push(nd(case("inmany", d.clone(), vec![op("inmany", vec![N(len as u64)])], inputs, 1)));
         }
@@ -542,18 +537,23 @@ pub fn decomp_cases(ctx: &Ctx, out: &mut Vec<Case>) {
 pub fn vector_cases(ctx: &Ctx, out: &mut Vec<Case>) {
     let mut rng = ctx.rng("vector");
     let d = p(4, 8);
-    let shapes: Vec<(usize, usize)> = if ctx.thorough() {
-        crate::vecops::SHAPES.to_vec()
-    } else {
-        vec![(4, 1), (4, 2), (4, 4), (6, 3), (8, 4)]
-    };
+    let shapes: Vec<(usize, usize)> = crate::oracles::vector_shapes(ctx);
     let nz = |rng: &mut rand_chacha::ChaCha8Rng| -> F { F::from(rng.gen_range(1..1000u64)) };
     for &(m, a) in &shapes {
         for len in 0..=m {
             let data: Vec<F> = (0..len).map(|_| nz(&mut rng)).collect();
             let va = op("vassign", vec![N(m as u64), N(a as u64), N(len as u64)]);
-            // assign alone (range check of the length)
+            // assign alone (range check of the length), default and explicit non-zero filler
             out.push(nd(case("vassign", d.clone(), vec![va.clone()], data.clone(), 0)));
+            {
+                let f = nz(&mut rng);
+                let vf = op("vassignf", vec![N(m as u64), N(a as u64), N(len as u64), C(f)]);
+                let o = vec![vf.clone(), op("vpad", vec![V(0), N(m as u64), N(a as u64)])];
+                out.push(case("vassignf", d.clone(), o, data.clone(), 1));
+                let k = len / 2;
+                let o = vec![vf, op("vtrim", vec![V(0), N(m as u64), N(a as u64), N(k as u64)])];
+                out.push(case("vtrimf", d.clone(), o, data.clone(), 1));
+            }
             // limits
             let o = vec![va.clone(), op("vlimits", vec![V(0), N(m as u64), N(a as u64)])];
             out.push(case("vlimits", d.clone(), o, data.clone(), 1));
@@ -592,6 +592,9 @@ pub fn vector_cases(ctx: &Ctx, out: &mut Vec<Case>) {
                 }
             };
             for kind in 0..3 {
+                if m > 8 && !ctx.thorough() && kind != (len % 3) {
+                    continue;
+                }
                 let d2 = second(&mut rng, kind);
                 let vb = op("vassign", vec![N(m as u64), N(a as u64), N(d2.len() as u64)]);
                 let mut inputs = data.clone();
@@ -626,7 +629,7 @@ pub fn vector_cases(ctx: &Ctx, out: &mut Vec<Case>) {
     }
     // resize followed by limits / padding on the larger vector
     for &((m, a), l) in crate::vecops::RESIZES {
-        if !ctx.thorough() && m > 4 {
+        if !ctx.thorough() && !matches!((m, l), (4, 5) | (4, 8) | (8, 16)) {
             continue;
         }
         for len in [0, 1, a, m - 1, m] {
@@ -990,18 +993,55 @@ pub fn bitwise_byte_cases(ctx: &Ctx, out: &mut Vec<Case>) {
     }
 }
 
+/// `MapGadget` with the harness's hash chip: structure and values of `init` / `get` / `insert`
+/// for empty and small maps, present and absent keys, a key inserted twice.
+pub fn map_cases(ctx: &Ctx, out: &mut Vec<Case>) {
+    let mut rng = ctx.rng("map");
+    let d = p(4, 8);
+    let reps = if ctx.thorough() { 4 } else { 1 };
+    for rep in 0..reps {
+        let n = if rep == 0 { 2 } else { rng.gen_range(0..5usize) };
+        let pairs: Vec<(F, F)> = (0..n).map(|_| (F::from(rng.gen_range(1..1000u64)), rand_fe(&mut rng))).collect();
+        let absent = F::from(rng.gen_range(1000..2000u64));
+        let mut keys = vec![absent];
+        if let Some((k, _)) = pairs.last() {
+            keys.push(*k);
+        }
+        for key in keys {
+            let o = vec![op("minit", vec![Pairs(pairs.clone())]), op("in", vec![]), op("mget", vec![V(1)])];
+            out.push(nd(case("map:get", d.clone(), o, vec![key], 2)));
+        }
+        // insert (new key / existing key), then read it back
+        let key = if rep % 2 == 0 { absent } else { pairs.first().map(|x| x.0).unwrap_or(absent) };
+        let o = vec![
+            op("minit", vec![Pairs(pairs.clone())]),
+            op("in", vec![]),
+            op("in", vec![]),
+            op("minsert", vec![V(1), V(2)]),
+            op("mget", vec![V(1)]),
+        ];
+        out.push(nd(case("map:insert", d.clone(), o, vec![key, rand_fe(&mut rng)], 3)));
+    }
+    // the empty map
+    let o = vec![op("minit", vec![Pairs(vec![])]), op("in", vec![]), op("mget", vec![V(1)])];
+    out.push(nd(case("map:get", d.clone(), o, vec![F::from(5u64)], 2)));
+}
+
 pub fn cases(ctx: &Ctx) -> Vec<Case> {
     let mut out = vec![];
+    // development aid (never set by bin/check): H_C04_PART=new runs only the vector / map groups
+    if std::env::var("H_C04_PART").as_deref() == Ok("new") {
+        vector_cases(ctx, &mut out);
+        map_cases(ctx, &mut out);
+        return out;
+    }
     bound_cache_cases(ctx, &mut out);
     bitwise_byte_cases(ctx, &mut out);
     native_cases(ctx, &mut out);
     bit_cases(ctx, &mut out);
     decomp_cases(ctx, &mut out);
-    // The Lean side of the vector operations (emitters + theorems) is being completed; until the driver
-    // answers them the cases are generated only on request (H_C04_VECTORS=1).
-    if std::env::var("H_C04_VECTORS").is_ok() {
-        vector_cases(ctx, &mut out);
-    }
+    vector_cases(ctx, &mut out);
+    map_cases(ctx, &mut out);
     let _ = F::NUM_BITS;
     out
 }
